@@ -1025,3 +1025,99 @@ Proof.
   { induction n; simpl; [|apply lstep_minv; exact IHn]. unfold minv. simpl. repeat split; auto. intros d x []. }
   exact (proj1 G).
 Qed.
+
+(* ---------------------------------------------------------------- the `ksorted` premise of the linear theorems is INDUCTIVE
+   (final round).  The source of pvMergeToLinear only ever loses items: at every step, for every key policy, schedule, category and
+   input, what is left in the source is an order-preserving sub-sequence of the original source ... *)
+Inductive subseq : list item -> list item -> Prop :=
+| subseq_nil : subseq [] []
+| subseq_skip a l s : subseq l s -> subseq l (a :: s)
+| subseq_keep a l s : subseq l s -> subseq (a :: l) (a :: s).
+
+Lemma subseq_refl l : subseq l l.
+Proof. induction l; constructor; assumption. Qed.
+
+Lemma subseq_in l s : subseq l s -> forall a, In a l -> In a s.
+Proof. induction 1; simpl; intros b Hb; [exact Hb|right; auto|destruct Hb as [<-|Hb]; [left; reflexivity|right; auto]]. Qed.
+
+Lemma subseq_drop_middle k x r : forall s, subseq (k ++ x :: r) s -> subseq (k ++ r) s.
+Proof.
+  intros s H. remember (k ++ x :: r) as l eqn:E. revert k E.
+  induction H as [|a l s H IH|a l s H IH]; intros k E.
+  - destruct k; discriminate.
+  - constructor. apply IH. exact E.
+  - destruct k as [|b k]; simpl in E.
+    + inversion E; subst. constructor. exact H.
+    + inversion E; subst. simpl. apply subseq_keep. apply IH. reflexivity.
+Qed.
+
+Lemma ksorted_subseq l s : subseq l s -> ksorted s -> ksorted l.
+Proof.
+  induction 1 as [|a l s H IH|a l s H IH]; simpl; intros S; [exact I|apply IH; apply S|].
+  destruct S as [Ha S]. split; [|apply IH; exact S]. intros b Hb. apply Ha. eapply subseq_in; eassumption.
+Qed.
+
+Lemma ksle_subseq l s : subseq l s -> ksle s -> ksle l.
+Proof.
+  induction 1 as [|a l s H IH|a l s H IH]; simpl; intros S; [exact I|apply IH; apply S|].
+  destruct S as [Ha S]. split; [|apply IH; exact S]. intros b Hb. apply Ha. eapply subseq_in; eassumption.
+Qed.
+
+Lemma lstep_src_subseq c multi st : subseq (lsrc_items (lstep c multi st)) (lsrc_items st).
+Proof.
+  unfold lstep, lsrc_items. destruct st as [kept rest dpre dpost w stat shape]. simpl.
+  destruct stat; try apply subseq_refl.
+  destruct rest as [|x r]; [apply subseq_refl|].
+  destruct (advance multi w x dpre dpost) as [w1 [[p q]|]]; [|apply subseq_refl].
+  assert (A : forall w2 dpre' dpost',
+    subseq (l_kept (match step_alloc w2 with
+          | None => LS kept (x :: r) dpre' dpost' (fail_alloc w2) Failed shape
+          | Some w3 => let (internal, sh) := pop shape in
+            match extract_reloc c w3 x (pred_of kept internal) with
+            | (w4, None) => LS kept (x :: r) dpre' dpost' w4 Failed sh
+            | (w4, Some e) => LS kept r (dpre' ++ [e]) dpost' w4 Running sh
+            end end) ++ l_rest (match step_alloc w2 with
+          | None => LS kept (x :: r) dpre' dpost' (fail_alloc w2) Failed shape
+          | Some w3 => let (internal, sh) := pop shape in
+            match extract_reloc c w3 x (pred_of kept internal) with
+            | (w4, None) => LS kept (x :: r) dpre' dpost' w4 Failed sh
+            | (w4, Some e) => LS kept r (dpre' ++ [e]) dpost' w4 Running sh
+            end end)) (kept ++ x :: r)).
+  { intros w2 dpre' dpost'. destruct (step_alloc w2) as [w3|]; simpl; [|apply subseq_refl].
+    destruct (pop shape) as [internal sh].
+    destruct (extract_reloc c w3 x (pred_of kept internal)) as [w4 [e|]]; simpl; [|apply subseq_refl].
+    apply subseq_drop_middle with (x := x). apply subseq_refl. }
+  destruct multi; [apply A|].
+  destruct q as [|d dr]; [apply A|].
+  destruct (step_func w1) as [w2|]; [|simpl; apply subseq_refl].
+  destruct (Z.ltb (key x) (key d)); [apply A|].
+  simpl. rewrite <- app_assoc. apply subseq_refl.
+Qed.
+
+Theorem lmerge_source_order_preserved c multi src dst w shape n :
+  subseq (lsrc_items (lrun c multi n (linit src dst w shape))) src.
+Proof.
+  induction n; simpl; [apply subseq_refl|].
+  assert (T : forall a b d, subseq a b -> subseq b d -> subseq a d).
+  { intros a b d H1 H2. revert a H1. induction H2; intros a0 H1; [exact H1|constructor; auto|].
+    inversion H1; subst; [constructor; auto|apply subseq_keep; auto]. }
+  eapply T; [apply lstep_src_subseq|exact IHn].
+Qed.
+
+(* ... hence both trees satisfy the premise again at every step -- also in the state an exception leaves behind: a further
+   MergeTo / MergeFrom on them is covered by the same theorems (unique keys: strictly sorted; multi keys: sorted) *)
+Theorem lmerge_keeps_both_sorted c src dst w shape n : ksorted src -> ksorted dst ->
+  ksorted (lsrc_items (lrun c false n (linit src dst w shape))) /\ ksorted (ldst_items (lrun c false n (linit src dst w shape))).
+Proof.
+  intros Ss Sd. split.
+  - eapply ksorted_subseq; [apply lmerge_source_order_preserved|exact Ss].
+  - exact (proj1 (lrun_linv c src dst w shape n Ss Sd)).
+Qed.
+
+Theorem lmerge_multi_keeps_both_sorted c src dst w shape n : ksle src -> ksle dst ->
+  ksle (lsrc_items (lrun c true n (linit src dst w shape))) /\ ksle (ldst_items (lrun c true n (linit src dst w shape))).
+Proof.
+  intros Ss Sd. split.
+  - eapply ksle_subseq; [apply lmerge_source_order_preserved|exact Ss].
+  - apply lmerge_multi_sorted; assumption.
+Qed.
